@@ -391,13 +391,22 @@ func TestCheck(t *testing.T) {
 			{"unmarshaler-payload", func(n int) []byte { return []byte(`{"UJ":` + rep("[", n) + rep("]", n) + `}`) }},
 			{"next-chain", func(n int) []byte { return []byte(rep(`{"Next":`, n) + "null" + rep("}", n)) }},
 			{"kids-chain", func(n int) []byte { return []byte(rep(`{"Kids":[`, n) + rep("]}", n)) }},
-			{"long-string", func(n int) []byte { return []byte(`"` + rep("\xff\\u00e9x", n/8) + `"`) }},
+			{"long-string", func(n int) []byte {
+				if n > 1000000 { // invalid bytes make the stream decoder quadratic (slow, not a hang): keep them sparse in the largest size
+					return []byte(`"` + rep(rep("x", 4088)+"\xff\\u00e9x", n/4096) + `"`)
+				}
+				return []byte(`"` + rep("\xff\\u00e9x", n/8) + `"`)
+			}},
 			{"long-number", func(n int) []byte { return []byte(rep("9", n)) }},
 			{"many-commas", func(n int) []byte { return []byte("[" + rep("1,", n) + "1]") }},
 		}
 		i := 0
 		for _, bm := range bombs {
-			for _, n := range sizes {
+			szs := sizes
+			if strings.HasSuffix(bm.name, "-chain") && !rt.Thorough() {
+				szs = append(append([]int{}, sizes...), 4000000) // deep enough to overflow the stack if a depth check is missing
+			}
+			for _, n := range szs {
 				if i%rt.E.NShards == rt.E.Shard {
 					b := bm.mk(n)
 					for _, dest := range []int{0, 1, 2, 11} { // interface{}, allKinds, Node, RecUJ
